@@ -428,7 +428,7 @@ def utm_part(R: Run, mods):
     from odc.geo import geom
 
     rng = R.rng
-    for _ in range(R.pick(32, 120)):
+    for _ in range(R.pick(24, 120)):
         lon = rng.uniform(-179, 179)
         lat = rng.uniform(-79, 83)
         if 56 <= lat <= 64 and 0 <= lon <= 13 or lat >= 72 and 0 <= lon <= 42:
@@ -875,7 +875,7 @@ def coarse_part(R: Run, mods):
     anchor fractions are derived from the footprint bbox the code will see)"""
     Affine, GeoBox, ov, M, CRS, norm_crs, _pick, resxy_, xy_, AnchorEnum = mods
     rng = R.rng
-    for _ in range(R.pick(48, 160)):
+    for _ in range(R.pick(40, 160)):
         k = rng.random()
         if k < 0.6:
             z = rng.randint(28, 37)
